@@ -56,6 +56,9 @@ func checkC13(c *Ctx) {
 	c.Rule("C13-R16", "a Show with no change writes no cell content: each pass starts from an empty frame buffer (draw resets it before the flush; bytes.Buffer.WriteTo keeps what a short write left over, and an idle Show would send the rest of the previous frame)")
 	c.Expect("C13-R16", 1)
 	checkFrameBufferStartsEmpty(c, p, "C13-R16")
+	c.Rule("C13-R17", "the neighbour is used to paint the bottom-right corner only: the insert-character emission of drawCell is reached only where x == w-1 and y == h-1 are both known (a helper that answers for every row of the last column rewrites unchanged, possibly locked, neighbours)")
+	c.Expect("C13-R17", 1)
+	checkCornerTrickOnlyInTheCorner(c, p, "C13-R17")
 	c.Rule("C13-R10", "a cell marked dirty (marker rune zero: SetDirty(true), Invalidate, UnlockCell) is reported dirty whatever it holds, also one nothing was ever stored in; combining runes are compared in full")
 	c.Expect("C13-R10", 2)
 	c.asRule("C08-R9", "C13-R10", func() { checkDirtyDecisions(c, p, "C08-R9") })
